@@ -141,6 +141,8 @@ pub fn check_hash(name: &[u8]) -> Result<(), String> {
 /// C14: the first two notes yielded by NoteIterator against a reference walk of the record layout
 /// (12-byte header of three 32-bit words for both classes, name, padding to `align`, descriptor, padding)
 pub fn check_c14(buf: &[u8], align_sel: u8, elf64: bool, little: bool) -> Result<(), String> {
+    #[cfg(kani)] const NOTES: usize = 1;      // the search looks at the first note only (cost); the replay walks two
+    #[cfg(not(kani))] const NOTES: usize = 2;
     use elf::note::{Note, NoteIterator};
     let align: usize = [0usize, 1, 2, 4, 8, 16, 3, 4][(align_sel % 8) as usize];
     let class = if elf64 { Class::ELF64 } else { Class::ELF32 };
@@ -161,7 +163,7 @@ pub fn check_c14(buf: &[u8], align_sel: u8, elf64: bool, little: bool) -> Result
     }
     let mut it = NoteIterator::new(e, class, align, buf);
     let mut off: u64 = 0;
-    for k in 0..2 {
+    for k in 0..NOTES {
         let want = ref_note(little, align, buf, off);
         let got = it.next();
         match (got, want) {
@@ -236,7 +238,9 @@ pub fn check_c13_iter(buf: &[u8], count: u8, start: u8, little: bool, defs: bool
     let u32a = |o: u64| uval(little, &buf[o as usize..o as usize + 4]);
     let mut need = VerNeedIterator::new(e, Class::ELF64, count as u64, start as usize, buf);
     let mut def = VerDefIterator::new(e, Class::ELF64, count as u64, start as usize, buf);
-    for k in 0..2 {
+    #[cfg(kani)] const RECORDS: usize = 1;    // the search looks at the first record (and its first auxiliary record) and the step after it
+    #[cfg(not(kani))] const RECORDS: usize = 3;
+    for k in 0..RECORDS {
         let fits = !buf.is_empty() && cnt > 0 && off + rs <= len && u16a(off) == 1;
         if defs {
             let got = def.next();
@@ -252,6 +256,7 @@ pub fn check_c13_iter(buf: &[u8], count: u8, start: u8, little: bool, defs: bool
             if ga.is_some() != afits { fail!("VerDef #{}: first auxiliary record expected at offset {} (vd_aux {}), yielded={}", k, a0, auxo, ga.is_some()); }
             if let Some(a) = ga { if a.vda_name as u64 != u32a(a0) { fail!("VerDef #{}: auxiliary vda_name {} != bytes at {}", k, a.vda_name, a0); } }
             cnt -= 1; off += next; if cnt > 0 && next == 0 { cnt = 0; }
+            if k + 1 == RECORDS { let fits2 = cnt > 0 && off + rs <= len && u16a(off) == 1; if def.next().is_some() != fits2 { fail!("VerDef: after a record with vd_next {} the iterator {} at offset {} (count left {})", next, if fits2 { "stops although a record fits" } else { "yields although no record fits" }, off, cnt); } }
         } else {
             let got = need.next();
             if got.is_some() != fits { fail!("VerNeed #{}: yielded={} but a version-1 record {} at offset {} with count {}", k, got.is_some(), if fits { "fits" } else { "does not fit" }, off, cnt); }
@@ -267,6 +272,7 @@ pub fn check_c13_iter(buf: &[u8], count: u8, start: u8, little: bool, defs: bool
             // Elf64_Vernaux: vna_hash u32, vna_flags u16, vna_other u16, vna_name u32, vna_next u32
             if let Some(a) = ga { if a.vna_hash as u64 != u32a(a0) || a.vna_flags as u64 != u16a(a0 + 4) || a.vna_other as u64 != u16a(a0 + 6) || a.vna_name as u64 != u32a(a0 + 8) { fail!("VerNeed #{}: auxiliary record fields differ from the bytes at {}", k, a0); } }
             cnt -= 1; off += next; if cnt > 0 && next == 0 { cnt = 0; }
+            if k + 1 == RECORDS { let fits2 = cnt > 0 && off + rs <= len && u16a(off) == 1; if need.next().is_some() != fits2 { fail!("VerNeed: after a record with vn_next {} the iterator {} at offset {} (count left {})", next, if fits2 { "stops although a record fits" } else { "yields although no record fits" }, off, cnt); } }
         }
     }
     Ok(())
